@@ -29,6 +29,9 @@ func init() {
 				bs = append(bs, Batch{Name: fmt.Sprintf("p%d", p), Args: map[string]string{"procs": fmt.Sprint(p)}, Race: true, Procs: p, Weight: min(p, 4)})
 			}
 			bs = append(bs, Batch{Name: "slow-virtual", Kind: "synctest", Race: true, Args: map[string]string{"test": "TestC03SlowHandlers"}})
+			for _, p := range []int{2, 16} {
+				bs = append(bs, Batch{Name: fmt.Sprintf("sup-p%d", p), Args: map[string]string{"mode": "sup", "procs": fmt.Sprint(p)}, Race: true, Procs: p, Weight: min(p, 4)})
+			}
 			if tier == "thorough" {
 				for i := 0; i < 8; i++ {
 					p := []int{1, 2, 4, 16}[i%4]
@@ -48,6 +51,10 @@ type c03Sent struct {
 }
 
 func runC03(c *Ctx) {
+	if c.Arg("mode", "") == "sup" {
+		runSupervised(c, "C03")
+		return
+	}
 	sessions := c.Pick(60, 500)
 	procs, salt := c.Arg("procs", "?"), c.Arg("salt", "")
 	lg := rig.NewLog()
